@@ -29,6 +29,11 @@ class ExcelType:
         inst.value = value
         return inst
 
+    def __reduce__(self):
+        # Instances are made by `__new__(cls, value)`; tell copy, pickle and
+        # jsonpickle so.
+        return (self.__class__, (self.value,))
+
     @classmethod
     def cast(cls, value):
         if isinstance(value, cls):
